@@ -6,15 +6,15 @@ set -u
 export GOFLAGS=-mod=mod GOPROXY=off GOSUMDB=off GOTOOLCHAIN=local
 P=$(readlink -f "$1"); D=$(readlink -f "$2")
 W=/tmp/confirm_$$
-git -C /repo worktree add --detach $W HEAD >/dev/null 2>&1 || exit 2
+git -C ${VERIF_REPO:-/repo} worktree add --detach $W HEAD >/dev/null 2>&1 || exit 2
 cd $W
 res=""
-git apply "$P" || { echo "APPLY-FAILED"; git -C /repo worktree remove --force $W; exit 1; }
+git apply "$P" || { echo "APPLY-FAILED"; git -C ${VERIF_REPO:-/repo} worktree remove --force $W; exit 1; }
 go build ./ 2>&1 | tail -3
 if go test -vet=off -count=1 . >/tmp/confirm_out_$$ 2>&1; then res="$res existing-pass-with-patch"; else res="$res EXISTING-FAIL-WITH-PATCH"; tail -5 /tmp/confirm_out_$$; fi
 cp "$D" zz_seed_demo_test.go
 if timeout 120 go test -vet=off -count=1 -run 'Seed' . >/tmp/confirm_out_$$ 2>&1; then res="$res DEMO-PASSES-WITH-PATCH(bad)"; else res="$res demo-fails-with-patch"; fi
 git checkout -- . 
 if timeout 120 go test -vet=off -count=1 -run 'Seed' . >/tmp/confirm_out_$$ 2>&1; then res="$res demo-passes-without-patch"; else res="$res DEMO-FAILS-WITHOUT-PATCH(bad)"; tail -5 /tmp/confirm_out_$$; fi
-cd /; git -C /repo worktree remove --force $W; rm -f /tmp/confirm_out_$$
+cd /; git -C ${VERIF_REPO:-/repo} worktree remove --force $W; rm -f /tmp/confirm_out_$$
 echo "RESULT:$res"
